@@ -16,6 +16,61 @@ LISTED = {
 }
 
 
+def G_strip_not(d):
+    from . import guards as G
+    return G.strip_not(d)
+
+
+def is_channel_range_assert(prog, p):
+    """The value-level debug assertion of the 8-bit HSL -> RGB conversion, wherever it lives (the per-channel closure, a nested fn, the
+    method itself) and however it is spelled: a diverging formatted panic in the `Hsl::to_rgb` family that is guarded by nothing but
+    comparisons of one value against the constants 0 / 255 / 256 (or a `contains` on such a range)."""
+    from . import term as T, panics as PN
+    root = "%s::<[u8; 3], math::color::Hsl>::to_rgb" % COL
+    if not (p.body == root or p.body.startswith(root + "::")) or p.kind != "diverge:panic_fmt":
+        return False
+    b = prog.bodies.get(p.body)
+    if b is None:
+        return False
+    try:
+        line = int(str(p.where).rsplit(":", 1)[-1])
+    except ValueError:
+        return False
+    sl = T.Slicer(b)
+    for bi, t in b.calls(lambda c: "panic" in c["path"]):
+        if t.get("t") is not None or t.get("line") != line:
+            continue
+        # the switches that decide whether this panic is reached: the panic block is reachable from them but not from all their successors
+        conds = []
+        for si, blk in enumerate(b.blocks):
+            st = blk["term"]
+            if st["k"] != "SwitchInt":
+                continue
+            succ = [x for x, _l in b.term_edges(si, False)]
+            reach = [bi == x or bi in b.reachable(x, unwind=False) for x in succ]
+            if any(reach) and not all(reach):
+                conds.append((sl.operand(st["discr"]), True))
+        if not conds:
+            continue
+        ok = True
+        for d, _taken in conds:
+            d = T.strip(d, sites=True, refs=True)
+            d, _neg = G_strip_not(d)
+            if d[0] == "const":
+                continue                                   # cfg!(debug_assertions)
+            if d[0] == "bin" and d[1] in ("Le", "Lt", "Ge", "Gt"):
+                cs = [x for x in (d[2], d[3]) if x[0] == "const" and isinstance(x[2], int)]
+                ok = ok and len(cs) == 1 and cs[0][2] in (0, 255, 256)
+            elif d[0] == "call" and d[1].split(" => ")[0].endswith("::contains"):
+                consts = [x[2] for x in T.walk(d) if x[0] == "const" and isinstance(x[2], int)]
+                ok = ok and bool(consts) and set(consts) <= {0, 255, 256}
+            else:
+                ok = False
+        if ok:
+            return True
+    return False
+
+
 def int_panic_rules(rep, prog):
     cfg = prog.config
     roots = [("[u8; 3]", "Rgb", "to_hsl", 3), ("[u8; 3]", "Hsl", "to_rgb", 3), ("[u8; 4]", "Rgba", "to_hsla", 4), ("[u8; 4]", "Hsla", "to_rgba", 4)]
@@ -36,7 +91,7 @@ def int_panic_rules(rep, prog):
         bad = []
         for (_body, kind, where), p in sorted(found.items(), key=lambda kv: kv[1].where):
             suffix = p.body.split("::", 5)[-1] if "::" in p.body else p.body
-            listed = [why for (sfx, k), why in LISTED.items() if p.body.endswith(sfx) and k == kind]
+            listed = [why for (sfx, k), why in LISTED.items() if k == kind and is_channel_range_assert(prog, p)]
             if listed:
                 rep.inst("C16.K7", "%s: %s at %s is listed, not decided: %s" % (meth, kind, where, listed[0]), config=cfg)
                 continue
